@@ -100,6 +100,10 @@ def run(chk, tier):
         from props import evalcore as E10
         efn, epaths, erows = E10.eval_dyn_table(chk, F, 'R10.6.table', cfg)
         E10.counting_discipline(chk, F, 'R10.6', cfg, efn, erows)
+        # values lent concurrently through a shared &Unimock: the append is one atomic try_insert per cell (no check-then-act)
+        from props import c13 as _c13
+        _c13.push_node(chk, F, 'R10.7', cfg)
+        _c13.chain_writers(chk, F, 'R10.7', cfg)
         ops = atomic_ops(F)
         rmw_per_field = {}
         # write-only statistics: an atomic other than the two position counters that is only ever advanced / stored, with the result
